@@ -1,9 +1,6 @@
 """C03 — simultaneous-derivative colouring reconstructs every Jacobian entry."""
-import sys
 import core
 from core import Spec, standard_check
-
-sys.set_int_max_str_digits(0)       # matrices travel as single big integers
 
 
 def nl(xs):
@@ -24,11 +21,33 @@ def subs_lit(subs):
                                     for p, l in subs)
 
 
-def undigits(base, ds):
-    acc = 1
-    for d in reversed(ds):
-        acc = int(d) + base * acc
-    return acc
+def words(symbols):
+    """pack 10-bit symbols six to a 60-bit word (padding symbol 1023); Gallina literal of type list int"""
+    ws = []
+    for k in range(0, len(symbols), 6):
+        ch = list(symbols[k:k + 6])
+        ch += [1023] * (6 - len(ch))
+        w = 0
+        for j, d in enumerate(ch):
+            assert 0 <= d < 1024
+            w |= d << (10 * j)
+        ws.append(w)
+    return '[%s]' % '; '.join('%d' % w for w in ws)
+
+
+def code_words(code):
+    ws = []
+    while code:
+        ws.append(code & ((1 << 60) - 1))
+        code >>= 60
+    return '[%s]' % '; '.join('%d' % w for w in ws)
+
+
+def grp(g):
+    ds = []
+    for l in g:
+        ds += [int(x) + 1 for x in l] + [0]
+    return words(ds)
 
 
 def pat_case(nr, nc, code, rng, zero_prob=0.0):
@@ -129,6 +148,7 @@ class C03(Spec):
                  'by the real MNCO_bidir')
     shard = 250
     impl_jobs = 8
+    prelude = 'From Coq Require Import Uint63.\nOpen Scope uint63_scope.\n'
     rule = ('exhaustive boolean patterns of every shape with nrows*ncols <= 12 (all of 1x1 .. 3x4, 4x3), 4x4 sampled '
             '(quick) / exhaustive (thorough), structured random patterns up to 12x12 and up to 40x40; each through the '
             'real _compute_coloring fwd, rev, auto x {direct, substitution} and the raw MNCO_bidir x {direct, '
@@ -182,13 +202,19 @@ class C03(Spec):
         return True
 
     def got_term(self, c):
-        raw = self._res[id(c)]['raw']
+        res = self._res[id(c)]
+        raw = res['raw']
         nr, nc = c['nr'], c['nc']
-        m = undigits(64, [v + 32 for v in c['M']])
-        cj = undigits(64, [v + 32 for v in c['cj']])
-        d, s = raw['d']['enc'], raw['s']['enc']
-        return '(run_pat %d %d %d %d %d  %d %d %d %d %d %d  %d %d %d %d %d %d)' % (
-            nr, nc, c['code'], m, cj, d[0], d[1], d[2], d[3], d[4], raw['nd'], s[0], s[1], s[2], s[3], s[4], raw['ns'])
+
+        def bid(r, n):
+            subs = [p + [v for ab in l for v in ab] for p, l in r['subs']]
+            return '%s %s %s %s %s %d' % (grp(r['fg']), grp(r['fnz']), grp(r['rg']), grp(r['rnz']), grp(subs), n)
+        return '(run_pat %d %d %s %s %s  %s  %s  %s)' % (
+            nr, nc, code_words(c['code']), words([v + 512 for v in c['M']]), words([v + 512 for v in c['cj']]),
+            bid(raw['d'], raw['nd']), bid(raw['s'], raw['ns']), words(res['res']))
+
+    def want_term(self, c, res):
+        return '(VB true)'
 
     def shrink(self, c):
         if c['kind'] == 'totals':
